@@ -97,6 +97,9 @@ def get_method_annotation(key: str, field: InstanceMethodField) -> str:
         field.method
     )
     has_ret_annotation = "return" in annotations
+    # the configuration arrives in the first named parameter - or, for a function that has none
+    # (``def wrapper(*args, **kwargs)``), as the first of its *args
+    has_config_parameter = bool(args)
     if kwonlyargs:
         if not varargs:
             args.append("*")
@@ -127,7 +130,10 @@ def get_method_annotation(key: str, field: InstanceMethodField) -> str:
     if varkw:
         items.append("**%s" % varkw)
 
-    items[0] = "self"
+    if has_config_parameter:
+        items[0] = "self"
+    else:
+        items.insert(0, "self")
     annotation = "def %s(%s)" % (key, ", ".join(items))
     if has_ret_annotation:
         retval = get_retval_annotation(annotations["return"])
